@@ -1,7 +1,9 @@
 #!/bin/bash
-# for every confirmed seed under /verif/seeded: run the quick check of its property against a scratch copy with the patch; write seeded/RESULTS.txt
+# for every seed under /verif/seeded: run the quick check of its property against a scratch copy with the patch; append to seeded/RESULTS.txt
 out=/verif/seeded/RESULTS.txt; : > $out
 for d in /verif/seeded/*/; do
   name=$(basename $d); prop=$(echo $name | cut -d_ -f1)
-  EXPECT=$prop tools/mutants.sh $out $d/patch.diff.tmp 2>/dev/null
+  [ "$name" = C02_b ] && { echo "C02_b SUPERSEDED (see meta.json)" >> $out; continue; }
+  cp $d/patch.diff /dev/shm/$name.diff
+  EXPECT=$prop tools/mutants.sh $out /dev/shm/$name.diff; rm -f /dev/shm/$name.diff
 done
